@@ -22,6 +22,8 @@ DECIDED = ('(a) a built value is validated in the context the matcher will see: 
            'over the three paths of the loop body.')
 DECIDED_MORE = ('Also: the URL parts are collected in a list created by the call.')
 DECIDED = DECIDED + ' ' + DECIDED_MORE
+DECIDED_R6 = ('Round 6: the trailing literal is emitted whenever it is not empty; the following literal reaches the validation call on every path; the params filter tests the name only.')
+DECIDED = DECIDED + ' ' + DECIDED_R6
 NOT_DECIDED = 'match o build = identity over all runtime strings (regex semantics of user filters; float repr of exponent forms).'
 ASSUMPTIONS = ['str(int(x)) / str(float(x)) round-trip through int / float', 'pattern_out contains one marker character per wildcard']
 
